@@ -293,9 +293,33 @@ func verif_x_quota_AcquireUint64(q MemoryQuotaProvider, ctx context.Context, sz 
 func verif_x_tableIndex_prefixes(ti tableIndex, ctx context.Context) (p []uint64, cleanup func(), err error) {
 	return ti.prefixes(ctx)
 }
-func verif_x_d_PanicIfError(err error)                       { d.PanicIfError(err) }
-func verif_x_d_PanicIfTrue(b bool)                           { d.PanicIfTrue(b) }
-func verif_x_d_PanicIfFalse(b bool)                          { d.PanicIfFalse(b) }
+func verif_x_d_PanicIfError(err error) { d.PanicIfError(err) }
+func verif_x_d_PanicIfTrue(b bool)     { d.PanicIfTrue(b) }
+func verif_x_d_PanicIfFalse(b bool)    { d.PanicIfFalse(b) }
+
+// verif_arPfx / verif_arSfx: the prefix and the suffix an archive index holds for entry k (uninterpreted functions of
+// the index reader and the entry; the index is immutable once loaded).
+func verif_arPfx(r archiveIndexReader, k uint32) uint64 { return r.getPrefix(k) }
+func verif_arSfx(r archiveIndexReader, k uint32) suffix { return r.getSuffix(k) }
+func verif_arCount(r archiveIndexReader) uint32         { return r.getNumChunks() }
+
+// verif_arMatch: entry tGJ of the archive index holds the address |h|.
+func verif_arMatch(ar *archiveReader, h hash.Hash) bool {
+	gj := verif_ghost.tGJ
+	if !(0 <= gj && gj < int(ar.footer.chunkCount)) {
+		return false
+	}
+	sfx := verif_arSfx(ar.indexReader, uint32(gj))
+	return verif_arPfx(ar.indexReader, uint32(gj)) == h.Prefix() && verif_forall(0, hash.SuffixLen, func(b int) bool {
+		return sfx[b] == h[hash.PrefixLen+b]
+	})
+}
+
+func verif_x_arIdx_getPrefix(r archiveIndexReader, idx uint32) (p uint64) { return r.getPrefix(idx) }
+func verif_x_arIdx_getSuffix(r archiveIndexReader, idx uint32) (x suffix) { return r.getSuffix(idx) }
+func verif_x_arIdx_searchPrefix(r archiveIndexReader, prefix uint64) (i int32) {
+	return r.searchPrefix(prefix)
+}
 func verif_x_tableIndex_chunkCount(ti tableIndex) (n uint32) { return ti.chunkCount() }
 
 // verif_idxCount / verif_idxSfx: what a table index answers, as (uninterpreted) functions of the index and the
